@@ -1,18 +1,5 @@
-\* family "bodies", quick: every body over {x, CR, LF} up to 4 bytes (so CRLFCRLF inside the body), with no /
-\* exact / smaller / larger Content-Length, closed or stalled after every body byte
-CONSTANTS SLKinds = {1}
-          HdrKinds = {1}
-          MaxHdrs = 1
-          CLVals <- CLValsBodiesQuick
-          CLNames = {0}
-          CLDups <- NoDups
-          MaxBody = 4
-          BodyByPos = FALSE
-          BodyAlpha = {120, 13, 10}
-          FragAll = {"end"}
-          FragDepth = 0
-          StallSL = {1}
-          StallFrags = FALSE
+\* selftest: the BodiesQuick family alone
+CONSTANTS Fams <- FamsBodiesQuick
           Conforming = {"enforce", "truncate", "strict"}
           Others = {"as_built", "m_status200", "m_short", "m_bodyterm", "m_notimeout", "m_panic", "m_drophdr", "m_halfheader"}
 INIT Init
